@@ -693,4 +693,88 @@ def empty_patch(repo: Repo) -> RuleRun:
 empty_patch.rule_id = "C10.EMPTY-PATCH"
 
 
-RULES = [face_permutations, edge_map_rule, side_addressing, select_polarity, arguments_untouched, written_sides, no_class_state, affine_kinds, no_shared_parts, corner_patches, beam_list, labels_private, empty_patch]
+def normal_symmetric(repo: Repo) -> RuleRun:
+    """'inverting flips the normal' and shifting / re-orienting 'keeps the same four points' - of ANY quadrangle: the normal of a
+    face is a symmetric function of its four corners (OpenFOAM's rule: the average over the four triangles that meet at the face
+    centre), so it is the same for every cyclic renumbering and exactly opposite for the reversed order - also for a warped
+    face. Exact rational evaluation of Face.normal (before the final normalisation) on a non-planar quadrangle for the four
+    cyclic shifts and the four reversed orders."""
+    from fractions import Fraction
+
+    from .. import exact
+
+    r = RuleRun(PROP, "C10.NORMAL-SYMMETRIC", floor=7, what="the (un-normalised) normal of a warped quadrangle is identical for the four cyclic renumberings and exactly opposite for the reversed orders (exact rational evaluation)")
+    fcls = repo.cls("construct.flat.face.Face")
+    fn = repo.find_method(fcls, "normal")
+    r.require(fn is not None, "Face.normal vanished")
+    quad = [exact.vec(0, 0, 0), exact.vec(2, Fraction(1, 5), Fraction(3, 10)), exact.vec(Fraction(9, 4), Fraction(7, 4), Fraction(-1, 5)), exact.vec(Fraction(-1, 3), 2, Fraction(1, 2))]
+
+    def hook(ev, call, name):
+        nm = (name or "").split(".")[-1]
+        if nm in ("array", "asarray") and call.args:
+            return ev.eval(call.args[0])
+        if nm in ("average", "mean") and call.args:
+            v = ev.eval(call.args[0])
+            if isinstance(v, list) and v and all(isinstance(x, exact.Vec) for x in v):
+                tot = v[0]
+                for x in v[1:]:
+                    tot = tot + x
+                return tot.scale(exact.c(Fraction(1, len(v))))
+        if nm == "roll" and len(call.args) >= 2:
+            v, k = ev.eval(call.args[0]), ev.eval(call.args[1])
+            if isinstance(v, list) and isinstance(k, int):
+                k %= len(v)
+                return v[-k:] + v[:-k] if k else list(v)
+        if nm == "cross" and len(call.args) == 2:
+            a, b = ev.eval(call.args[0]), ev.eval(call.args[1])
+            if isinstance(a, list) and isinstance(b, list):
+                return [x.cross(y) for x, y in zip(a, b)]
+            if isinstance(a, exact.Vec) and isinstance(b, exact.Vec):
+                return a.cross(b)
+        if nm == "unit_vector" and call.args:
+            return ev.eval(call.args[0])  # the direction is what is compared
+        return NO_MATCH
+
+    def run(order):
+        face = Obj("face", cls=fcls)
+        face.set("points", [Obj(f"p{k}", position=quad[k]) for k in order])
+        ev = exact.evaluator(repo, fn.module, extra=hook)
+        inner = ev.binop_hook
+
+        def binop(op, a, b):
+            if isinstance(a, list) and isinstance(b, exact.Vec) and isinstance(op, (ast.Sub, ast.Add)):
+                return [(x - b) if isinstance(op, ast.Sub) else (x + b) for x in a]
+            return inner(op, a, b)
+
+        ev.binop_hook = binop
+        try:
+            return ev.call_funcinfo(fn, [face])
+        except (Raised, NotEvaluable) as err:
+            raise AnalysisError(f"Face.normal not evaluable over exact rational points: {err}") from err
+
+    ref = run([0, 1, 2, 3])
+    r.require(isinstance(ref, exact.Vec), "Face.normal does not return a vector on the exact model")
+    for k in range(1, 4):
+        got = run([(i + k) % 4 for i in range(4)])
+        r.check(exact.same(got, ref), fn, f"numbering shifted by {k}: same normal", f"Face.normal of a warped quadrangle changes when its corners are renumbered cyclically (shift {k}): {[str(exact.value(x)) for x in got.c]} instead of {[str(exact.value(x)) for x in ref.c]} - shift() / reorient() change the normal, and invert() does not give exactly the opposite one", fn.node, key=f"shift:{k}")
+    for k in range(4):
+        order = [(k - i) % 4 for i in range(4)]
+        got = run(order)
+        r.check(exact.same(got, ref.scale(exact.c(-1))), fn, f"reversed order starting at {k}: opposite normal", f"Face.normal of the reversed corner order {order} is not the exact opposite of the original normal: invert() does not flip the normal of a warped face", fn.node, key=f"reversed:{k}")
+    return r
+
+
+normal_symmetric.rule_id = "C10.NORMAL-SYMMETRIC"
+
+
+def no_memo(repo: Repo) -> RuleRun:
+    """'adding an edge by ... corner numbers affects exactly the block ... edge with those corner numbers' - also after the operation was written once: nothing of the addressing tables of an operation is memoised. Same rule body as C16.NO-MEMO."""
+    from ..memo import memo_rule
+
+    return memo_rule(repo, PROP, "C10.NO-MEMO", ("construct.", "util.frame", "items.side", "lists."), floor=0)
+
+
+no_memo.rule_id = "C10.NO-MEMO"
+
+
+RULES = [face_permutations, edge_map_rule, side_addressing, select_polarity, arguments_untouched, written_sides, no_class_state, affine_kinds, no_shared_parts, corner_patches, beam_list, labels_private, empty_patch, normal_symmetric, no_memo]
